@@ -16,7 +16,7 @@ enum { OP_FRAME = 3, OP_FRAMEDEC = 4, OP_GENFUNC = 5 };
 enum { K_STREAM = 0, K_COMPRESSFRAME = 1, K_COMPRESSFRAME_CDICT = 2 };
 enum { DK_NONE = 0, DK_DICT = 1, DK_CDICT = 2 };
 
-static u64 n_reused_differs, n_dict_derived, n_forged_size; static u64 n_calls, n_frames, n_decodes, n_switch, n_flush, n_uncomp, n_volatile, n_dec_ok, n_dec_err, n_dec_incomplete;
+static u64 n_reused_differs, n_dict_derived, n_forged_size, n_headers; static u64 n_calls, n_frames, n_decodes, n_switch, n_flush, n_uncomp, n_volatile, n_dec_ok, n_dec_err, n_dec_incomplete;
 static u8* g_dictbuf;   /* 70000 bytes, blob 1 */
 static u8 g_ops[1 << 16]; static size_t g_nops;   /* call history of the current streaming session: 'U'/'u' + u32 size, 'F' */
 static void op_rec(int code, size_t n) { if (g_nops + 5 <= sizeof g_ops) { g_ops[g_nops++] = (u8)code; if (code != 'F') { u32 v = (u32)n; memcpy(g_ops + g_nops, &v, 4); g_nops += 4; } } else g_nops = sizeof g_ops + 1; }
@@ -245,6 +245,24 @@ int main(int argc, char** argv)
             gen_data(data, n, kindD);
             kind = !strcmp(mode, "c07") ? (int)rndn(3) : (rndp(80) ? K_STREAM : (int)rndn(3));
             frame_case(cctx, dctx, data, n, kind, thorough);
+        }
+        if (!strcmp(mode, "c07")) {
+            /* headers alone: what LZ4F_compressBegin writes for a sweep of preferences incl. content sizes around and beyond 2^32 (a frame of that size is not
+             * produced here; the header is a function of the preferences only and is judged on its own: record kind 3) */
+            static const unsigned long long csz[] = {1, 255, 65536, 0xFFFFFFFFULL, 0x100000000ULL, 0x100000001ULL, 0x200000000ULL, 0x10000000000ULL, 0x7FFFFFFFFFFFFFFFULL, 0x8000000000000000ULL, 0xFFFFFFFF00000000ULL, 0xFFFFFFFFFFFFFFFFULL, 0};
+            int ci, bm, cc, bc, bs, di;
+            for (ci = 0; ci < 13; ci++) for (bm = 0; bm < 2; bm++) for (cc = 0; cc < 2; cc++) for (bc = 0; bc < 2; bc++) for (bs = 0; bs < 5; bs++) for (di = 0; di < 3; di++) {
+                LZ4F_preferences_t prefs; u8 hb[32]; size_t hr; rec_t r;
+                if (!thorough && rndp(60)) continue;
+                memset(&prefs, 0, sizeof prefs); prefs.frameInfo.contentSize = csz[ci]; prefs.frameInfo.blockMode = (LZ4F_blockMode_t)bm; prefs.frameInfo.contentChecksumFlag = (LZ4F_contentChecksum_t)cc;
+                prefs.frameInfo.blockChecksumFlag = (LZ4F_blockChecksum_t)bc; prefs.frameInfo.blockSizeID = (LZ4F_blockSizeID_t)(bs ? 3 + bs : 0); prefs.frameInfo.dictID = di == 0 ? 0 : di == 1 ? 1 : 0xFFFFFFFFu;
+                prefs.compressionLevel = rndp(50) ? 0 : 9;
+                rec_begin(&r, OP_FRAME); rec_int(&r, 3); rec_prefs(&r, &prefs); rec_int(&r, 0); rec_int(&r, DK_NONE); rec_bytes(&r, NULL, 0); rec_bytes(&r, NULL, 0); cur_set(&r);
+                hr = LZ4F_compressBegin(cctx, hb, sizeof hb, &prefs); n_calls++;
+                if (LZ4F_isError(hr)) c_fail(&r, "compression_call_failed_1");
+                else { r.n -= 1; rec_bytes(&r, hb, hr); n_headers++; }
+                cur_clear(); rec_write(&r);
+            }
         }
     } else if (!strcmp(mode, "c08")) {
         /* valid small frames; all single-bit flips and truncations of some; random damage; all FLG/BD pairs (sampled in quick) */
@@ -512,7 +530,7 @@ int main(int argc, char** argv)
 
     LZ4F_freeCompressionContext(cctx); LZ4F_freeDecompressionContext(dctx);
     harness_done();
-    stat_u("calls", n_calls); stat_u("reused_cctx_bytes_differ_from_fresh", n_reused_differs); stat_u("dictionary_derived_contents", n_dict_derived); stat_u("forged_content_sizes", n_forged_size); stat_u("frames", n_frames); stat_u("decodes", n_decodes); stat_u("flushes", n_flush); stat_u("uncompressed_updates", n_uncomp); stat_u("volatile_sources", n_volatile);
+    stat_u("calls", n_calls); stat_u("reused_cctx_bytes_differ_from_fresh", n_reused_differs); stat_u("dictionary_derived_contents", n_dict_derived); stat_u("forged_content_sizes", n_forged_size); stat_u("headers_alone", n_headers); stat_u("frames", n_frames); stat_u("decodes", n_decodes); stat_u("flushes", n_flush); stat_u("uncompressed_updates", n_uncomp); stat_u("volatile_sources", n_volatile);
     stat_u("mode_switches_with_buffered_data", n_switch); stat_u("dec_complete", n_dec_ok); stat_u("dec_error", n_dec_err); stat_u("dec_incomplete", n_dec_incomplete); stat_u("records", g_nrecords);
     stat_u("cfails", (u64)g_cfails);
     free(data); free(g_dictbuf);
